@@ -661,6 +661,18 @@ fn rand_key(rng: &mut Rng) -> Vec<u8> {
         1 => vec![0xffu8; 32],
         2 => { let mut k = rng.bytes(32, 3); k[0] &= 248; k[31] = (k[31] & 127) | 64; k }
         3 => b"-----BEGIN X----------END X-----".to_vec(), // see corpus()
+        // keys whose base64 text spells words of the PEM vocabulary (ENCRYPTED, PRIVATEKEY, BEGINEND, ProcType…):
+        // placed so that the word is aligned in the PEM body of the private form (key bytes 2..) or of the public
+        // form (key bytes 0..)
+        4 | 5 => {
+            let words: [&[u8]; 4] = [&[0x10, 0xd0, 0x91, 0x60, 0xf4, 0xc4, 0x0c, 0x00, 0x00], &[0x3d, 0x12, 0x15, 0x01, 0x31, 0x0a, 0x11, 0x80, 0x00],
+                &[0x04, 0x41, 0x88, 0x34, 0x43, 0x43], &[0x3e, 0xba, 0x1c, 0x4f, 0x2a, 0x5e, 0x0c, 0x42, 0x88, 0x9d, 0xfa, 0x38]];
+            let w = *rng.pick(&words);
+            let mut k = rng.bytes(32, 3);
+            let at = if rng.chance(1, 2) { 2 } else { 0 };
+            k[at..at + w.len()].copy_from_slice(w);
+            k
+        }
         _ => rng.bytes(32, 3),
     }
 }
